@@ -282,7 +282,7 @@ class World:
             return "%d@%d.%s:%s>%s" % (hid, self.ident(ev.object), ev.name, self.show_val(ev.old),
                                        self.show_val(ev.new))
         if isinstance(ev, ListChangeEvent):
-            ix = ev.index if isinstance(ev.index, int) else -1
+            ix = ev.index if isinstance(ev.index, int) else (ev.index.start if isinstance(ev.index, slice) else -1)
             return "%d@L%d:%d-%s+%s" % (hid, self.ident(ev.object), ix, self.show_ids(ev.removed),
                                         self.show_ids(ev.added))
         if isinstance(ev, DictChangeEvent):
@@ -512,6 +512,7 @@ class Runner:
         self.tags = set()
         self.selfreach = False       # some mutation so far violated NoSelfReach
         self.tainted = False         # a non-atomic failure left the hooks outside every ledger
+        self.stale = False           # C08 already reported hooks != reachability in this history
         self.shadow_default = False  # an unhooked default was "removed" on first assignment
         if self.eq_case:
             self.tags.add("eq-classes")
@@ -557,7 +558,7 @@ class Runner:
                         news = [_DEFAULT[id(o)]()]
                 if k == "set" and opw[3] != "N":
                     news = [w.real(int(opw[3]))]
-            elif k in ("la", "li", "ld", "ls", "lc", "le"):
+            elif k in ("la", "li", "ld", "ls", "lc", "le", "lsl", "lst"):
                 c = w.objs.get(int(opw[1]))
                 if not isinstance(c, TraitList):
                     return None
@@ -575,6 +576,12 @@ class Runner:
                     olds = list(c)
                 elif k == "le":
                     news = [w.real(i) for i in parse_ids(opw[2])]
+                elif k == "lsl":
+                    olds = list(c[int(opw[2]):int(opw[3])])
+                    news = [w.real(i) for i in parse_ids(opw[4])]
+                elif k == "lst":
+                    olds = list(c[int(opw[2])::int(opw[3])])
+                    news = [w.real(i) for i in parse_ids(opw[4])]
             elif k in ("ds", "dd", "dc"):
                 c = w.objs.get(int(opw[1]))
                 if not isinstance(c, TraitDict):
@@ -692,7 +699,7 @@ class Runner:
             md = {"tag": True} if p[3] == "1" else {}
             o.add_trait(name, Int(**md) if name == "extra" else Instance(HasTraits, **md))
             return
-        if k in ("la", "li", "ld", "ls", "lc", "le"):
+        if k in ("la", "li", "ld", "ls", "lc", "le", "lsl", "lst"):
             c = self.container(int(p[1]), TraitList)
             if k == "la":
                 c.append(w.real(int(p[2])))
@@ -710,6 +717,17 @@ class Runner:
                 c[int(p[2])] = w.real(int(p[3]))
             elif k == "lc":
                 c.clear()
+            elif k == "lsl":
+                i, j = int(p[2]), int(p[3])
+                if not (i <= j <= len(c)):
+                    raise Skip()
+                c[i:j] = [w.real(x) for x in parse_ids(p[4])]
+            elif k == "lst":
+                i, step = int(p[2]), int(p[3])
+                xs = [w.real(x) for x in parse_ids(p[4])]
+                if step < 2 or not xs or len(range(i, len(c), step)) != len(xs):
+                    raise Skip()
+                c[i::step] = xs
             else:
                 c.extend([w.real(i) for i in parse_ids(p[2])])
             return
@@ -790,7 +808,7 @@ class Runner:
                                     if not self.ledger[kk]:
                                         del self.ledger[kk]
                                     break
-                elif own_before == 0 and not self.tainted and not self.selfreach:
+                elif own_before == 0 and not self.tainted and not self.selfreach and not self.shadow_default:
                     if before:
                         pass
                     # nothing registered for this handler/target, yet the removal "worked":
@@ -829,7 +847,7 @@ class Runner:
             self.tags.add("non-atomic")
         if rm and exc_name(exc) == "NotifierNotFound":
             self.tags.add("extra-remove")
-        elif rm and not self.tainted and not self.selfreach:
+        elif rm and not self.tainted and not self.selfreach and not self.shadow_default:
             pass
         # the two checks below presuppose that the walk of the expression meets no failing
         # iter_* in the CURRENT heap (else the removal legitimately raises, and changes nothing)
@@ -837,14 +855,14 @@ class Runner:
             w.spec_walk(g, w.pool[root], (hid, root), collections.Counter()) for g in graphs)
         if not walk_ok:
             self.tags.add("unobs-walk-fails")
-        if rm and walk_ok and exc_name(exc) != "NotifierNotFound" and not self.tainted and not self.selfreach:
+        if rm and walk_ok and exc_name(exc) != "NotifierNotFound" and not self.tainted and not self.selfreach and not self.shadow_default:
             by_canon = collections.Counter()
             for kk, n in self.ledger.items():
                 by_canon[(kk[0], kk[1], canon(kk[2]))] += n
             if all(by_canon[kc] >= n for kc, n in collections.Counter(keys).items()):
                 self.hits09.append(_hit("registered-removal-raised:" + exc_name(exc),
                                         "unregistering an active registration raised", op=op))
-        if rm and walk_ok and exc_name(exc) == "NotifierNotFound" and not self.tainted and not self.selfreach:
+        if rm and walk_ok and exc_name(exc) == "NotifierNotFound" and not self.tainted and not self.selfreach and not self.shadow_default:
             by_canon = collections.Counter()
             for kk, n in self.ledger.items():
                 by_canon[(kk[0], kk[1], canon(kk[2]))] += n
@@ -968,7 +986,7 @@ class Runner:
         return out
 
     def check_reach(self):
-        return not self.tainted
+        return not (self.tainted or self.stale)
 
     def reach_hit(self, kind, what):
         if self.selfreach:
@@ -978,8 +996,9 @@ class Runner:
         else:
             sig = "hooks-differ-from-reachability:%s:%s" % (kind, self.cur_kind)
         self.hits08.append(_hit(sig, what, after_op=self.cur_op))
-        # one report per history is enough; later states inherit the discrepancy
-        self.tainted = True
+        # one report per history is enough; later states inherit the discrepancy.  (C09's
+        # own checks go on: a removal that then fails or leaves a residue is its subject.)
+        self.stale = True
 
     def whitebox(self, pop):
         """C08 refinement invariant on the real objects: reference counts = number
@@ -1024,6 +1043,8 @@ class Runner:
             changed = bool(pre["olds"])
         elif p[0] == "le":
             changed = bool(parse_ids(p[2]))
+        elif p[0] in ("lsl", "lst"):
+            changed = pre["olds"] or pre["news"]
         elif p[0] in ("sa",):
             changed = bool(pre["news"])
         elif p[0] in ("sr",):
@@ -1105,7 +1126,7 @@ class Runner:
                 # C09 "counted": right after a successful (un)registration the populations
                 # are the from-scratch ones
                 self.hits09.append(dict(self.hits08[-1]))
-            if not self.ledger and not self.tainted and not self.selfreach and pop:
+            if not self.ledger and not self.tainted and not self.selfreach and not self.shadow_default and pop:
                 self.hits09.append(_hit("residual-notifiers-after-balanced-removal",
                                         "every registration was removed but notifiers remain",
                                         after_op=op, population=nstr))
@@ -1246,6 +1267,7 @@ class Gen:
         self.next_id = 100
         self.conts = {}          # identity -> 'l' | 'd' | 's'
         self.attached = {}       # (obj, field) -> identity
+        self.lists = {}          # identity -> shadow of the list's items (best effort)
         self.added = set()       # (obj, name) added traits
         self.tagof = {}
         self.ops = []
@@ -1280,7 +1302,11 @@ class Gen:
             self.conts[c] = kind
             self.attached[(o, f)] = c
             if kind == "l":
-                return "setl %d kids %d %s" % (o, c, show_ids(self.items()))
+                its = self.items()
+                if r.random() < 0.35 and its:
+                    its = its + [r.choice(its)]          # repeated items
+                self.lists[c] = list(its)
+                return "setl %d kids %d %s" % (o, c, show_ids(its))
             if kind == "d":
                 ks = r.sample([0, 1, 2], r.randint(0, 3))
                 return "setd %d byname %d %s" % (o, c, show_kvs([(k, self.item()) for k in ks]))
@@ -1315,6 +1341,10 @@ class Gen:
         kind = self.conts[c]
         if kind == "l":
             y = r.random()
+            l = self.lists.setdefault(c, [])
+            if y < 0.22 and len(l) >= 2:
+                return self.slice_op(c, l)
+            self.lists.pop(c, None)      # the shadow is only kept up across slice assignments
             if y < 0.3:
                 return "la %d %d" % (c, self.item())
             if y < 0.45:
@@ -1339,6 +1369,27 @@ class Gen:
         if y < 0.9:
             return "sr %d %d" % (c, self.obj())
         return "sc %d" % c
+
+    def slice_op(self, c, l):
+        """Slice assignment on list `c` whose shadow is `l`: mostly same length, drawn from
+        the objects that are there, so that multiplicities change while the set stays."""
+        r = self.rng
+        if r.random() < 0.3 and len(l) >= 3:
+            step = r.choice([2, 2, 3])
+            i = r.randrange(0, min(step, len(l)))
+            pos = list(range(i, len(l), step))
+            olds = [l[p] for p in pos]
+            xs = [r.choice(olds) if r.random() < 0.8 else self.item() for _ in pos]
+            for p, x in zip(pos, xs):
+                l[p] = x
+            return "lst %d %d %d %s" % (c, i, step, show_ids(xs))
+        i = r.randrange(0, len(l))
+        j = r.randint(i + 1, len(l))
+        olds = l[i:j]
+        k = len(olds) if r.random() < 0.75 else r.randint(0, len(olds) + 1)
+        xs = [r.choice(olds) if r.random() < 0.8 else self.item() for _ in range(k)]
+        l[i:j] = xs
+        return "lsl %d %d %d %s" % (c, i, j, show_ids(xs))
 
     def setup(self, k):
         """Link the pool before anything is observed."""
@@ -1697,3 +1748,53 @@ def run_gc_case(case):
             if len(r.hits08) > before and is_target:
                 hits.append(_hit("gc:called-after-collection", r.hits08[-1]["what"], case=prefix, object=cand))
     return "gc points=%d" % points, hits, tags
+
+
+def history_mult(rng, maxops=12, c09=False):
+    """Lists with REPEATED items; slice assignments (also extended slices) that keep the
+    objects but change their multiplicities; then pops; every object is probed after each op."""
+    g = Gen(rng)
+    n = g.n
+    a, b = rng.sample(range(1, n), 2) if n > 2 else (1, 1)
+    root = 0
+    c = g.fresh()
+    g.conts[c] = "l"
+    g.attached[(root, "kids")] = c
+    items = [rng.choice([a, a, b]) for _ in range(rng.randint(2, 4))] + [a, b]
+    rng.shuffle(items)
+    g.lists[c] = list(items)
+    g.ops.append("setl %d kids %d %s" % (root, c, show_ids(items)))
+    if rng.random() < 0.5:
+        g.ops.append("set %d child %d" % (a, rng.randrange(n)))
+        g.ops.append("set %d child %d" % (b, rng.randrange(n)))
+    n1, n2 = rng.random() < 0.7, rng.random() < 0.8
+    leaf = rng.choice([t("value"), t("value"), seq(t("child"), t("value")), ("any", True)])
+    link = rng.choice([("li", n2, False), dsl_items(n2)])
+    es = " ".join(rpn_of(seq(t("kids", n1), link, leaf)))
+    g.ops.append("obs 0 %d %s" % (root, es))
+    if rng.random() < 0.3:
+        g.ops.append("obs %d %d %s" % (rng.randrange(2), root, es))
+    total = rng.randint(5, maxops)
+    while len(g.ops) < total:
+        l = g.lists[c]
+        x = rng.random()
+        if x < 0.45 and len(l) >= 2:
+            g.ops.append(g.slice_op(c, l))
+        elif x < 0.75 and l:
+            i = rng.randrange(len(l))
+            del l[i]
+            g.ops.append("ld %d %d" % (c, i))
+        elif x < 0.85:
+            y = rng.choice([a, b])
+            l.append(y)
+            g.ops.append("la %d %d" % (c, y))
+        elif x < 0.92 and c09:
+            g.ops.append("unobs 0 %d %s" % (root, es))
+            g.ops.append("obs 0 %d %s" % (root, es))
+        else:
+            g.lists.pop(c, None)
+            g.ops.append(g.mutation())
+            g.lists.setdefault(c, l)
+            if g.attached.get((root, "kids")) != c:
+                break
+    return header(g, gen_dflts(rng, n)) + ";".join(g.ops[:maxops + 2])
